@@ -126,7 +126,7 @@ def run(chk):
     from hy.reader.hy_reader import HyReader
     shared = HyReader()
     shared_prev = None
-    n_prog = 6000 if thorough else 420
+    n_prog = 6000 if thorough else 360
     n_repl = 600 if thorough else 60
     done = 0
     try:
